@@ -176,6 +176,17 @@ def build():
     sb_ = fn_body(ps, "next", after="Iterator for ParsedSuffixIter")
     one(r"let\s+res\s*=\s*name\.deref_octets\(\);\s*if\s+!name\.parent\(\)\s*\{\s*self\.name\s*=\s*None;?\s*\}\s*Some\(res\)", sb_, "ParsedSuffixIter::next is parent()")
     defs.append(("suffix_iter_is_parent", "bool", "true"))
+    # the operator impls of the three name types are the trait functions
+    for rel, ty, tag, has_canon in (("src/base/name/absolute.rs", "Name", "name", True), ("src/base/name/relative.rs", "RelativeName", "relname", False),
+                                    ("src/base/name/parsed.rs", "ParsedName", "parsed", True)):
+        src_ = strip_comments(read(rel))
+        g = r"impl<Octs(?::\s*AsRef<\[u8\]>(?:\s*\+\s*\?Sized)?)?(?:,\s*N)?>\s*"
+        one(r"^\s*self\.name_eq\(\s*other\s*\)\s*$", fn_body(impl_after(src_, g + r"PartialEq<N>\s*for\s+%s<Octs>\s*where[^{]*\{" % ty, "PartialEq for " + ty), "eq"), ty + "::eq is name_eq")
+        one(r"^\s*Some\(\s*self\.name_cmp\(\s*other\s*\)\s*\)\s*$", fn_body(impl_after(src_, g + r"PartialOrd<N>\s*for\s+%s<Octs>\s*where[^{]*\{" % ty, "PartialOrd for " + ty), "partial_cmp"), ty + "::partial_cmp is name_cmp")
+        ob_ = fn_body(impl_after(src_, g + r"Ord\s+for\s+%s<Octs>\s*\{" % ty, "Ord for " + ty), "cmp")
+        defs.append(("%s_ord_is_name_cmp" % tag, "bool", bool_(re.fullmatch(r"\s*self\.name_cmp\(\s*other\s*\)\s*", ob_) is not None)))
+        if has_canon:
+            one(r"^\s*self\.name_cmp\(\s*other\s*\)\s*$", fn_body(impl_after(src_, g + r"CanonicalOrd<N>\s*for\s+%s<Octs>\s*where[^{]*\{" % ty, "CanonicalOrd for " + ty), "canonical_cmp"), ty + "::canonical_cmp is name_cmp")
     # UncertainName: == only within one variant, Hash over the labels
     un = strip_comments(read("src/base/name/uncertain.rs"))
     ub = fn_body(impl_after(un, r"impl<Octets,\s*Other>\s*PartialEq<UncertainName<Other>>\s*for\s+UncertainName<Octets>\s*where[^{]*\{", "PartialEq for UncertainName"), "eq")
